@@ -1,0 +1,15 @@
+//go:build !verif
+
+// Package verifhook provides named perturbation points for the runtime
+// monitors in /verif. Without the "verif" build tag every function in this
+// package is an empty, inlinable no-op.
+package verifhook
+
+// Enabled reports whether the hooks were compiled in.
+const Enabled = false
+
+// Point marks a named location between two critical sections.
+func Point(string) {}
+
+// Set installs the callback invoked by Point. It is a no-op without the tag.
+func Set(func(string)) {}
